@@ -81,7 +81,7 @@ Section Accumulate.
         | CFuel => RMFuel
         | CComplete args k rest =>
             match k, args with
-            | KHttp, [] => RMAbort
+            | KHttp, [] => RM [] data (Some (EHttp 0))
             | _, _ =>
                 match rm_loop parse f rest with
                 | RM ms b e => RM (match args with [] => ms | _ => {| m_args := args; m_kind := k |} :: ms end) b e
@@ -122,7 +122,7 @@ Section Accumulate.
       cbn [cext] in St. change (S f + f2)%nat with (S (f + f2)). rewrite rm_loop_S.
       change ((x :: d) ++ e) with (x :: d ++ e) in *. rewrite St.
       destruct k; destruct args; try discriminate;
-        (destruct (rm_loop parse f rest) as [ms' b' x'| | |] eqn:D; try discriminate;
+        (destruct (rm_loop parse f rest) as [ms' b' x'| |] eqn:D; try discriminate;
          injection H as Hm Hbb Hx; subst ms b' x';
          rewrite (IH rest ms' b f2 Hb' D Hn);
          destruct (rm_loop parse f2 (b ++ e)); reflexivity).
@@ -143,8 +143,9 @@ Section Accumulate.
     - assert (Hb' : len (rest ++ e) < B) by (rewrite len_app in *; lia).
       cbn [cext] in St. rewrite rm_loop_S. change ((y :: d) ++ e) with (y :: d ++ e) in *. rewrite St.
       destruct k; destruct args; try discriminate;
-        (destruct (rm_loop parse f rest) as [ms' b' x'| | |] eqn:D; try discriminate;
-         injection H as Hm Hbb Hx; subst ms b x'; rewrite (IH rest ms' b' x Hb' D); reflexivity).
+        first [ solve [inversion H; subst; reflexivity]
+              | (destruct (rm_loop parse f rest) as [ms' b' x'| |] eqn:D; try discriminate;
+                 injection H as Hm Hbb Hx; subst ms b x'; rewrite (IH rest ms' b' x Hb' D); reflexivity) ].
     - cbn [cext] in St. inversion H; subst. rewrite rm_loop_S. change ((y :: d) ++ e) with (y :: d ++ e) in *.
       rewrite St. reflexivity.
   Qed.
@@ -166,7 +167,7 @@ Lemma conn_run_no_crash parse : (forall d, parse d <> CPanic) ->
 Proof.
   intros Hp. induction chunks as [|c rest IH]; intros buf acc; cbn [conn_run]; [discriminate|].
   unfold rm_step. pose proof (rm_loop_no_panic parse Hp (S (length (buf ++ c))) (buf ++ c)) as Hn.
-  destruct (rm_loop parse (S (length (buf ++ c))) (buf ++ c)) as [ms b [e|]| | |]; try discriminate; try congruence; try apply IH.
+  destruct (rm_loop parse (S (length (buf ++ c))) (buf ++ c)) as [ms b [e|]| |]; try discriminate; try congruence; try apply IH.
 Qed.
 
 (* F6 on the pinned code: eleven bytes crash the connection goroutine (and with it the process) *)
@@ -224,13 +225,12 @@ Section Chunking.
     match rm_all stream with
     | RM ms b None => Open ms b
     | RM ms b (Some e) => Closed ms e
-    | RMAbort => Aborted []
     | RMPanic => Crashed
     | RMFuel => NoFuel
     end.
   Proof.
     unfold whole_result, rm_all. cbn [conn_run]. unfold rm_step. cbn [app].
-    destruct (rm_loop parse (S (length stream)) stream) as [ms b [e|]| | |]; reflexivity.
+    destruct (rm_loop parse (S (length stream)) stream) as [ms b [e|]| |]; reflexivity.
   Qed.
 
   Lemma firstn_app_exact (A : Type) (a b : list A) : firstn (length a) (a ++ b) = a.
@@ -240,10 +240,9 @@ Section Chunking.
     len (pre ++ concat chunks) < B ->
     rm_all pre = RM acc buf None ->
     (forall k, rm_all (firstn k (pre ++ concat chunks)) <> RMPanic) ->
-    (forall k, rm_all (firstn k (pre ++ concat chunks)) <> RMAbort) ->
     conn_run parse chunks buf acc = whole_result (pre ++ concat chunks).
   Proof.
-    induction chunks as [|c rest IH]; intros pre buf acc Hb Hpre Hnp Hna.
+    induction chunks as [|c rest IH]; intros pre buf acc Hb Hpre Hnp.
     - cbn [concat conn_run]. rewrite app_nil_r, whole_result_eq, Hpre. reflexivity.
     - cbn [concat conn_run]. unfold rm_step. fold (rm_all (buf ++ c)).
       cbn [concat] in Hb. pose proof (len_nonneg (concat rest)) as Hcr.
@@ -251,10 +250,9 @@ Section Chunking.
       assert (Hb2 : len ((pre ++ c) ++ concat rest) < B) by (rewrite <- app_assoc; exact Hb).
       pose proof (rm_all_app pre c acc buf Hb1 Hpre) as Hall.
       pose proof (rm_loop_no_fuel (S (length (buf ++ c))) (buf ++ c) ltac:(lia)) as Hnf. fold (rm_all (buf ++ c)) in Hnf.
-      destruct (rm_all (buf ++ c)) as [ms b [x|]| | |] eqn:R; cbn [prepend] in Hall.
+      destruct (rm_all (buf ++ c)) as [ms b [x|]| |] eqn:R; cbn [prepend] in Hall.
       + rewrite whole_result_eq. rewrite app_assoc. rewrite (rm_all_err _ (concat rest) _ _ _ Hb2 Hall). reflexivity.
-      + rewrite app_assoc. apply IH; [exact Hb2|exact Hall| |]; intros k; rewrite <- app_assoc; [apply Hnp|apply Hna].
-      + exfalso. apply (Hna (length (pre ++ c))). cbn [concat]. rewrite app_assoc, firstn_app_exact. exact Hall.
+      + rewrite app_assoc. apply IH; [exact Hb2|exact Hall|]; intros k; rewrite <- app_assoc; apply Hnp.
       + exfalso. apply (Hnp (length (pre ++ c))). cbn [concat]. rewrite app_assoc, firstn_app_exact. exact Hall.
       + congruence.
   Qed.
@@ -264,10 +262,9 @@ Section Chunking.
   Theorem conn_run_chunking chunks :
     len (concat chunks) < B ->
     (forall k, rm_all (firstn k (concat chunks)) <> RMPanic) ->
-    (forall k, rm_all (firstn k (concat chunks)) <> RMAbort) ->
     conn_run parse chunks [] [] = conn_run parse [concat chunks] [] [].
   Proof.
-    intros Hb Hp Ha. exact (conn_run_gen chunks [] [] [] Hb eq_refl Hp Ha).
+    intros Hb Hp. exact (conn_run_gen chunks [] [] [] Hb eq_refl Hp).
   Qed.
 End Chunking.
 
@@ -393,7 +390,6 @@ Qed.
 
 Theorem t38_chunking chunks :
   (forall k, rm_all t38_parse (firstn k (concat chunks)) <> RMPanic) ->
-  (forall k, rm_all t38_parse (firstn k (concat chunks)) <> RMAbort) ->
   conn_run t38_parse chunks [] [] = conn_run t38_parse [concat chunks] [] [].
 Proof.
   apply (conn_run_chunking t38_parse (len (concat chunks) + 1)); [intros; apply t38_parse_stable|exact t38_parse_good|lia].
@@ -481,10 +477,9 @@ Proof. apply read_cmd_fixed_no_panic. Qed.
 (* k-way chunking for the repaired entry point: no panic hypothesis is left *)
 Theorem t38_fixed_chunking chunks :
   len (concat chunks) < BIG ->
-  (forall k, rm_all t38_parse_fixed (firstn k (concat chunks)) <> RMAbort) ->
   conn_run t38_parse_fixed chunks [] [] = conn_run t38_parse_fixed [concat chunks] [] [].
 Proof.
-  intros Hb Ha. apply (conn_run_chunking t38_parse_fixed BIG); try assumption.
+  intros Hb. apply (conn_run_chunking t38_parse_fixed BIG); try assumption.
   - intros d e H. apply t38_fixed_stable; assumption.
   - exact t38_fixed_good.
   - intros k. apply rm_loop_no_panic. exact t38_fixed_no_panic.
@@ -492,6 +487,6 @@ Qed.
 
 (* the message list and the error point, read off a connection outcome *)
 Definition conn_msgs (r : conn_res) : list msg :=
-  match r with Open ms _ | Closed ms _ | Aborted ms => ms | _ => [] end.
+  match r with Open ms _ | Closed ms _ => ms | _ => [] end.
 Definition conn_err (r : conn_res) : option cerr :=
   match r with Closed _ e => Some e | _ => None end.
